@@ -618,18 +618,56 @@ RULE = ('quilt: k in 1..3 members (2,3,1 rows or columns) x axis {0,1} x retain_
 BOUND = 'members <= 3 (sizes 2,3,1; thorough also 1,1,2 and 3,1,2), quilt axis length <= 6, opposite axis length 3, Batch chains of depth <= 2; NotImplementedAxis refusals are counted as declined, not compared'
 
 
+def typed_cases():
+    for axis in (0, 1):
+        for retain in (True, False):
+            yield dict(area='quilt-typed', axis=axis, retain=retain)
+
+
+def eval_quilt_typed(rep, case):
+    """members whose labels along the quilt axis are dates (IndexDate): the Quilt's labels are those of the concatenated Frame INCLUDING their kind, so the
+    date-string and partial-date selections that work on the concatenated Frame select the same rows from the Quilt"""
+    import static_frame as sf
+    axis, retain = case['axis'], case['retain']
+    days = [['2020-01-30', '2020-01-31', '2020-02-01'], ['2020-02-02', '2020-03-01'], ['2020-03-02']]
+    frames = []
+    for m, ds in enumerate(days):
+        ix = sf.IndexDate(ds)
+        data = np.arange(len(ds) * 2).reshape(len(ds), 2) + 10 * m
+        f = sf.Frame(data, index=ix, columns=('p', 'q'), name=f'f{m}')
+        frames.append(f if axis == 0 else f.T.rename(f'f{m}'))
+    bus = sf.Bus.from_frames(frames)
+    q = sf.Quilt(bus, axis=axis, retain_labels=retain)
+    ref = sf.Frame.from_concat_items(bus.items(), axis=axis) if retain else sf.Frame.from_concat(bus.values, axis=axis)
+    H = sf.HLoc
+    keys = ([H[:, '2020-02'], H['f1', '2020-03-01':], H['f1', '2020-02-02'], H[:, '2020-03':]] if retain else
+            ['2020-02', slice('2020-02-01', '2020-03-01'), '2020-02-02', slice('2020-03', None)])
+    for ki, key in enumerate(keys):
+        rp = dict(case, ki=ki)
+        rep.count(distinct_key=('typed', axis, retain, ki), sample=dict(rp, key=repr(key)))
+        sel = (lambda o: o.loc[key]) if axis == 0 else (lambda o: o.loc[:, key])
+        a, b = outcome(lambda: sel(q)), outcome(lambda: sel(ref))
+        if b[0] != 'ok':
+            continue      # the concatenated Frame itself does not accept this key
+        rep.check(a == b, f'{PID}:quilt:typed-axis-labels:selection-differs:' + ('retained-labels' if retain else 'dropped-bus-labels'), f'Quilt(axis={axis}, retain_labels={retain}) with IndexDate members: loc key {key!r} gives {str(a)[:200]}, '
+                  f'the concatenated Frame gives {str(b)[:200]}', rp)
+
+
 def _run(task, areas, name):
     tier = task.get('tier', 'quick')
     rep = Report(name, task, rule=RULE + ' Added: one Batch member holds a 2-column 2-D block next to a 1-D block; mean / median / std / var / prod / all along both axes.', bound=BOUND)
     gens = []
     if 'q' in areas:
         gens.append(quilt_cases(tier))
+        gens.append(typed_cases())
     if 'b' in areas:
         gens.append(batch_cases(tier))
     with tempfile.TemporaryDirectory(dir=os.environ.get('VERIF_SCRATCH', '/var/tmp'), prefix='a7c19_') as tmp:
         for case in rep.shard(itertools.chain(*gens)):
             try:
-                if case['area'] == 'quilt':
+                if case['area'] == 'quilt-typed':
+                    eval_quilt_typed(rep, case)
+                elif case['area'] == 'quilt':
                     eval_quilt(rep, dict(case, tier=tier), tmp)
                 else:
                     eval_batch(rep, case, tmp)
@@ -655,7 +693,9 @@ def replay(repo, rp):
     rep = Report('C19-replay', dict(tier='quick'), rule='', bound='')
     with tempfile.TemporaryDirectory(dir=os.environ.get('VERIF_SCRATCH', '/var/tmp'), prefix='a7c19r_') as tmp:
         try:
-            if case['area'] == 'quilt':
+            if case['area'] == 'quilt-typed':
+                eval_quilt_typed(rep, {k: v for k, v in case.items() if k != 'ki'})
+            elif case['area'] == 'quilt':
                 eval_quilt(rep, case, tmp, only=rp.get('op'))
             else:
                 eval_batch(rep, case, tmp)
